@@ -194,3 +194,24 @@ def spec_classes(spec, cells=None):
     yield 'nodes=' + ('1' if len(spec) == 1 else '2-8' if len(spec) <= 8 else '9-32' if len(spec) <= 32 else '33+')
     for k in sorted(kinds):
         yield 'kind:' + k
+
+
+def lib_from_rcell(root, route='builder'):
+    """reference cell tree -> library cell tree (iterative, one library cell per distinct RCell object)"""
+    order = []
+    seen = set()
+    stack = [(root, 0)]
+    while stack:
+        c, i = stack.pop()
+        if i == 0:
+            if id(c) in seen:
+                continue
+            seen.add(id(c))
+        if i < len(c.refs):
+            stack.append((c, i + 1))
+            stack.append((c.refs[i], 0))
+        else:
+            order.append(c)
+    # order is a post-order: children before parents
+    libs = lib_from_ref(order, route)
+    return libs[-1]
